@@ -61,6 +61,7 @@ type Case struct {
 	Algs       []string     `json:"algs"`             // allowed list; empty: library default
 	Tok        TokSpec      `json:"tok"`
 	Delegation bool         `json:"delegation,omitempty"`  // assertions: verifier built with op.SubjectCheck that permits iss != sub
+	MultiKS    bool         `json:"multi_ks,omitempty"`    // rp-static / jwt-assert-ks: the application's key set verifies with go-jose's VerifyMulti (tolerates several signatures itself)
 	Warm       bool         `json:"warm,omitempty"`        // rp-remote: verify three times (cold, then cached)
 	SkipRemote bool         `json:"skip_remote,omitempty"` // rp-remote: rp.SkipRemoteCheck()
 	FK         *FindKeySpec `json:"fk,omitempty"`
@@ -236,6 +237,9 @@ func genCase(t *rapid.T) Case {
 		return genFindKey(t, c)
 	}
 	allowed := allowedAlgs(c)
+	if c.Kind == kRPStatic || c.Kind == kAssertKS {
+		c.MultiKS = rapid.IntRange(0, 2).Draw(t, "multiks") == 0
+	}
 	if c.Kind == kRPRemote {
 		c.Warm = rapid.Bool().Draw(t, "warm")
 		c.SkipRemote = rapid.IntRange(0, 3).Draw(t, "skipremote") == 0
